@@ -270,6 +270,40 @@ fn run_agg(plan: &Plan, lib: &dyn Lib, rec: &mut Rec) {
         _ => { l[pos].0 = Pt::from_bytes(&l[pos].0).map(|p| p.neg().to_bytes()).unwrap_or_default(); ("key-negated", Some(false)) }
     };
     decide(rec, &l, label, must);
+    // messages that are different but collide under a cheap unkeyed 64-bit fingerprint (env::FP_COLLISIONS), in the
+    // arrangements that matter to a table keyed by such a fingerprint: A, B / A, B, A / B, A, B / A, A, B — each with
+    // its own honest aggregate; the reference decides (a repeat is refused in Basic only, and B is NOT a repeat of A)
+    {
+        let pairs = crate::env::fp_collision_pairs();
+        if !pairs.is_empty() && ss.len() >= 2 {
+            let (kind, a_msg, b_msg) = &pairs[(salt as usize) % pairs.len()];
+            let shapes: [&[u8]; 4] = [&[0, 1], &[0, 1, 0], &[1, 0, 1], &[0, 0, 1]];
+            let shape = shapes[(salt as usize / 7) % 4];
+            let mut list = vec![];
+            let mut sigs = vec![];
+            for (k, which) in shape.iter().enumerate() {
+                let signer = &ss[k % ss.len()];
+                let m = if *which == 0 { a_msg.clone() } else { b_msg.clone() };
+                if let Some(sg) = rec.call(lib, g, Op::Sign, &[&signer.sk, &[scheme], &m]).first().map(|v| v.to_vec()) {
+                    sigs.push(sg);
+                    list.push((signer.pk.clone(), m));
+                }
+            }
+            let sa: Vec<&[u8]> = sigs.iter().map(|v| v.as_slice()).collect();
+            if let (true, Some(agg2)) = (sigs.len() == shape.len(), rec.call(lib, g, Op::Aggregate, &sa).first().map(|v| v.to_vec())) {
+                let out = agg_verify(rec, lib, g, &agg2, &list);
+                let exp = match (to_pairs(&list), Pt::from_bytes(&agg2[1..])) {
+                    (Some(p), Some(a)) => b.aggregate_verify(Scheme::from_u8(scheme), &p, &a),
+                    _ => false,
+                };
+                rec.fault("byz-colliding-fingerprints");
+                rec.case(&[6, g as u64, scheme as u64, shape.len() as u64, 99, exp as u64], true);
+                rec.expect("C06", "decision-equals-reference", out.is_ok() == exp, || {
+                    format!("colliding-fingerprints({}) shape={:?} scheme={} g={} | messages {} and {} differ but share a cheap 64-bit fingerprint: library says {}, reference says {}", kind, shape, sch, g.name(), kernel::plan::hex(a_msg), kernel::plan::hex(b_msg), out.kind(), exp)
+                });
+            }
+        }
+    }
     // aggregation input rules: mixed schemes at every position, fewer than two
     let one = rec.call(lib, g, Op::Aggregate, &[&ss[0].sig]);
     rec.expect("C06", "fewer-than-two-refused", !one.is_ok(), || "count one | aggregation of a single signature accepted".to_string());
